@@ -40,7 +40,10 @@ pub fn check(case: &C12Case, st: &mut Stats) -> Verdict {
     st.label(&format!("strategy={}", base.strat.kind()));
     let on = IssueSpec { decoys: true, ..base.clone() };
     let off = IssueSpec { decoys: false, ..base.clone() };
-    let (t_on, t_off) = match (sut::issue(&on), sut::issue(&off)) {
+    // one issuer instance for both issuances, decoys on first: the setting of one call must not
+    // carry over to the next (instances are reusable, C11)
+    let mut issuer = sut::new_issuer(base.alg, crate::keys::KeyId::Primary);
+    let (t_on, t_off) = match (sut::issue_with(&mut issuer, &on), sut::issue_with(&mut issuer, &off)) {
         (Out::Ok(a), Out::Ok(b)) => (a, b),
         _ => {
             st.label("void:issue_failed");
